@@ -8,6 +8,9 @@ from .core import SymStr, SymTok, SymInt, SymBool, Engine, concretize_value
 STRS = ['', ' ', 'a', 'ab', ' a b ', 'a  b\tc\n', '\x85x ', 'a.b', '.a', 'a.b.c', '/x.y/z', 'x/.b', 'AbC', 'abcabc',
         'aaa', '12', '-7', '+3', '007', ' 42 ', '1.5', '.5', '5.', '-0.25', 'a-b--c', '``x\'\'', 'foo.tex', '..', 'é', 'Σx']
 SUBS = ['', 'a', 'b', 'ab', ' ', '.', 'aa', '--', 'bc']
+RE_PATS = [r'(?:0\.)+', r'^\s*(\w+)\s*=\s*(.*)$', r'(\w+)(?:\((\W)\))?', r'a|ab', r'(a|ab)(c|bcd)(d*)', r'x*', r'\d+\.\d*', r'[^a-c]+', r'(?i)ab+', r'\bfoo\b', r'(a)|(b)',
+           r'a{2,3}?', r'(?m)^b', r'b$', r'.+?;', r'(\d)(?=\.)', r'(?!a)\w', r'(\w)\1', r'\s+', r'[-+]?\d*\.?\d+', r'%\((\w+)\)s', r'&#(\d+);', r'\A\w+\Z', r'(?s).b', r'\\(\w+)']
+RE_SUBJ = ['', 'a', 'ab', 'abcd', '10.1', '0.0.7', 'x = 1 ', 'foo(,)', 'aab', 'xxabxx', 'a\nb', 'b\n', 'foo bar', 'AbB', '1.5pt', '-.5', '%(abc)s!', '&#65;x', 'aa', 'a1.2', '\\foo bar', 'abcbcd', 'a;b;']
 
 
 def pin(eng, s):
@@ -128,6 +131,21 @@ def run(mod=None):
             cmp('str+tok', lambda: 'x' + sym, lambda: 'x' + real)
     except ImportError:
         pass
+    # the regular-expression matcher over symbolic text against `re` (subjects pinned to constants)
+    import re
+    from . import symre
+
+    def mres(mo):
+        return None if mo is None else (mo.span(), tuple(mo.groups()), [mo.span(i) for i in range(mo.re.groups + 1)])
+    for p in RE_PATS:
+        cp = re.compile(p)
+        for s in RE_SUBJ:
+            for fn in ('search', 'match', 'fullmatch'):
+                cmp('re.%s(%r, %r)' % (fn, p, s), lambda: mres(getattr(symre, fn)(cp, pin(eng, s))), lambda: mres(getattr(cp, fn)(s)))
+            cmp('re.findall(%r, %r)' % (p, s), lambda: symre.findall(cp, pin(eng, s)), lambda: cp.findall(s))
+            cmp('re.split(%r, %r)' % (p, s), lambda: symre.split(cp, pin(eng, s)), lambda: cp.split(s))
+            for repl in ('-', r'<\g<0>>'):
+                cmp('re.sub(%r, %r, %r)' % (p, repl, s), lambda: symre.sub(cp, repl, pin(eng, s)), lambda: cp.sub(repl, s))
     core.CUR = None
     return {'n': n, 'failed': failed}
 
